@@ -33,11 +33,15 @@ def run(tier, seed):
         cases.append(Case('stateless_17signers', 'crypto', 'zzC06_stateless', [18, 16, (1 << 17) - 1, 3], opts=FC))
         cases.append(Case('stateless_9signers_high', 'crypto', 'zzC06_stateless', [12, 8, 0b111111111000, 2], opts=FC))
         cases.append(Case('stateless_9signers_symbolic_coeffs', 'crypto', 'zzC06_stateless', [10, 8, (1 << 9) - 1, 0]))
+    # limb lemma: symbolic signer indices (any values 1..254, relative order fixed per case) through the real batching code
+    for (deg, pat) in ([(8, 0), (8, 1), (8, 7), (9, 2), (16, 0), (16, 5)] + ([(8, k) for k in range(8, 16)] + [(15, 3), (16, 1), (17, 4), (24, 0), (24, 9)] if thorough else [])):
+        cases.append(Case('limb_lemma_deg%d_p%d' % (deg, pat), 'crypto', 'zzC06_limbLemma', [deg, pat]))
     cases.sort(key=lambda c: -(c.args[0] if c.args else 0))
     return run_check('C06', cases, tier, seed, setup=SETUP, timeout_ms=600000 if thorough else 120000,
         functions=['BLSThresholdKeyGen', 'generateFrPolynomial', 'BLSReconstructThresholdSignature', 'blsThresholdSignatureInspector methods', 'EnoughShares',
                    'C:Fr_polynomial_image', 'C:E1_lagrange_interpolate_at_zero_write', 'C:E1_lagrange_interpolate_at_zero', 'C:Fr_lagrange_coeff_at_zero', 'C:E1_multi_scalar', 'C:G2_mult_gen'],
         bounds={'configurations': str(cfgs) + ' plus 9 (and 17, thorough) signers for the limb batching of the Lagrange coefficients',
+                'limb lemma': 'Lagrange coefficient code on t+1 = 9, 10, 17 (thorough: up to 25) fully symbolic signer indices in 1..254 whose relative order is fixed per case (ascending, descending, seeded permutations -- a stated sample of order patterns): no 64-bit limb product wraps around (implementation-independent), and for the pinned batching structure every limb factor is x_j resp. |x_j - x_i| and the sign is the parity of the smaller indices',
                 'signer sets': 'every subset of size t, t+1, t+2 (t+2 only for n <= 3 in the quick tier), two rotations; pairs of sets for byte equality',
                 'polynomial': 'coefficients are symbolic field elements (a_0, a_t non-zero); zero key shares (probability 1/r) are excluded by an assumption; for the 9- and 17-signer cases the coefficients are formal indeterminates (generic values)',
                 'outside': 'n up to 254 in general; the derivation of the coefficients from the seed (SHA3, ChaCha20, map_bytes_to_Fr); BLST pippenger and modular inverse (contracts)'},
